@@ -59,4 +59,10 @@ Definition CreateDCPacket (pid : Z) (cc : N) : bytes :=
 
 Definition CreatePacketWithPayload (pid : Z) (cc : N) (pay : bytes) : bytes :=
   SetCC (Create pid [WithHasPayloadFlag; WithContinuousAF; OptSetPayload pay]) cc.
+(* TestPatPacket / TestPmtPacket (create.go): the literal bytes, then 0xff up to 188 *)
+Definition TestPatPacket : bytes :=
+  [71; 64; 0; 16; 0; 0; 176; 13; 0; 1; 203; 0; 0; 0; 1; 224; 100; 104; 214; 132; 46] ++ repeatN 255 167.
+Definition TestPmtPacket : bytes :=
+  [71; 64; 100; 16; 0; 2; 176; 45; 0; 1; 203; 0; 0; 224; 101; 240; 6; 5; 4; 67; 85; 69; 73; 27; 224; 101; 240; 5; 14; 3; 0; 4; 176; 15; 224; 102; 240; 6; 10; 4; 101; 110; 103; 0; 134; 224; 110; 240; 0; 127; 201; 173; 50] ++ repeatN 255 135.
+
 End Create.
